@@ -103,23 +103,82 @@ def replacement_sequence(ctx, rule):
     weekdays = _attr_literal(J, "_weekdays", rule)
     digits = _attr_literal(J, "_digits", rule)
     nl = _attr_literal(J, "_number_letters", rule)
-    # conformance of the bodies
-    def body(name):
+    # conformance of the bodies: alpha-normalised fingerprints against the modelled reference
+    from .c16 import _norm_fingerprint
+    REF = {
+        "_replace_digits": '''
+def _replace_digits(cls, source):
+    result = source
+    for pers_digit, number in cls._digits.items():
+        result = result.replace(pers_digit, str(number))
+    return result
+''',
+        "_replace_months": '''
+def _replace_months(cls, source):
+    result = source
+    for pers, latin in reduce(
+        lambda a, b: a + b,
+        [
+            [(value, month) for value in repl[-1]]
+            for month, repl in cls._months.items()
+        ],
+    ):
+        result = result.replace(pers, latin)
+    return result
+''',
+        "_replace_weekdays": '''
+def _replace_weekdays(cls, source):
+    result = source
+    for pers, latin in reduce(
+        lambda a, b: a + b,
+        [
+            [(value, weekday) for value in repl]
+            for weekday, repl in cls._weekdays.items()
+        ],
+    ):
+        result = result.replace(pers, latin)
+    return result
+''',
+        "_replace_days": '''
+def _replace_days(cls, source):
+    result = re.sub(
+        r"ام|م|ین", "", source
+    )
+    day_pairs = list(cls._number_letters.items())
+
+    def comp_key(tup):
+        return tup[0]
+
+    day_pairs.sort(key=comp_key, reverse=True)
+
+    thirteen, thirty = day_pairs[-14], day_pairs[1]
+    day_pairs[-14] = thirty
+    day_pairs[1] = thirteen
+
+    for persian_number, number in reduce(
+        lambda a, b: a + b,
+        [[(val, repl) for val in persian_word] for repl, persian_word in day_pairs],
+    ):
+        result = result.replace(persian_number, str(number))
+    return result
+''',
+    }
+    import copy
+    for name, src in REF.items():
         m = J.methods.get(name)
-        return " ".join(ast.unparse(m.node).split()) if m else ""
-    if "for value in repl[-1]] for month, repl in cls._months.items()" not in body("_replace_months") or \
-            "result.replace(pers, latin)" not in body("_replace_months"):
-        raise AnalysisError(rule, "_replace_months changed shape")
-    if "for value in repl] for weekday, repl in cls._weekdays.items()" not in body("_replace_weekdays"):
-        raise AnalysisError(rule, "_replace_weekdays changed shape")
-    if "for pers_digit, number in cls._digits.items()" not in body("_replace_digits") or "result.replace(pers_digit, str(number))" not in body("_replace_digits"):
-        raise AnalysisError(rule, "_replace_digits changed shape")
-    bd = body("_replace_days")
-    for frag in ("day_pairs = list(cls._number_letters.items())", "day_pairs.sort(key=comp_key, reverse=True)",
-                 "thirteen, thirty = (day_pairs[-14], day_pairs[1])", "day_pairs[-14] = thirty", "day_pairs[1] = thirteen",
-                 "result.replace(persian_number, str(number))"):
-        if frag not in bd:
-            raise AnalysisError(rule, "_replace_days changed shape (missing %r)" % frag)
+        if m is None:
+            raise AnalysisError(rule, "jalali_parser.%s not found" % name)
+        node = copy.deepcopy(m.node)
+        node.decorator_list = []
+        want = ast.parse(src).body[0]
+        if name == "_replace_days":
+            # the strip pattern is data (extracted below), not part of the shape
+            for t_ in (node, want):
+                for c in ast.walk(t_):
+                    if isinstance(c, ast.Call) and ast.unparse(c.func) == "re.sub" and c.args and isinstance(c.args[0], ast.Constant):
+                        c.args[0] = ast.Constant(value="<strip>")
+        if _norm_fingerprint(node) != _norm_fingerprint(want):
+            raise AnalysisError(rule, "jalali_parser.%s no longer has the modelled shape" % name)
     strip = None
     for n in iter_own_nodes(J.methods["_replace_days"].node):
         if isinstance(n, ast.Call) and ast.unparse(n.func) == "re.sub" and isinstance(n.args[0], ast.Constant) and isinstance(n.args[1], ast.Constant) and n.args[1].value == "":
@@ -189,26 +248,33 @@ def r3(ctx, chk):
     ix = ctx.ix
     f = ix.func(NG + "._get_datetime_obj")
     conv = [n for n in iter_own_nodes(f.node) if isinstance(n, ast.Call) and ast.unparse(n.func).endswith("calendar_converter.to_gregorian")]
-    ok = len(conv) == 1 and {k.arg: ast.unparse(k.value) for k in conv[0].keywords} == {"year": "year", "month": "month", "day": "day"} and not conv[0].args
+    ok = len(conv) == 1 and set(k.arg for k in conv[0].keywords) == {"year", "month", "day"} and not conv[0].args
     chk.ob(rule, "to_gregorian receives year/month/day by keyword", ok, "", key={"function": f.key, "construct": "converter kwargs"},
            file=f.file, function=f.qual, line=f.node.lineno)
+    # year/month/day locals come from params[...] of the same part and are what the converter receives
     src = {}
     for n in iter_own_nodes(f.node):
-        if isinstance(n, ast.Assign) and isinstance(n.targets[0], ast.Name) and isinstance(n.value, ast.Subscript) and ast.unparse(n.value.value) == "params":
-            src[n.targets[0].id] = n.value.slice.value if isinstance(n.value.slice, ast.Constant) else None
-    chk.ob(rule, "year/month/day come from the parsed params of the same name", src == {"day": "day", "year": "year", "month": "month"}, "%s" % src,
+        if isinstance(n, ast.Assign) and isinstance(n.targets[0], ast.Name) and isinstance(n.value, ast.Subscript) and ast.unparse(n.value.value) == "params" \
+                and isinstance(n.value.slice, ast.Constant):
+            src[n.targets[0].id] = n.value.slice.value
+    kw = {k.arg: ast.unparse(k.value) for k in conv[0].keywords} if conv else {}
+    ok = all(src.get(kw.get(part)) == part for part in ("year", "month", "day"))
+    chk.ob(rule, "the converter's year/month/day come from the parsed params of the same name", ok, "kwargs %s, locals %s" % (kw, src),
            key={"function": f.key, "construct": "params plumbing"}, file=f.file, function=f.qual, line=f.node.lineno)
     t = " ".join(ast.unparse(f.node).split())
-    ok = "c_params = params.copy()" in t and "c_params.update(dict(year=year, month=month, day=day))" in t and "return datetime(**c_params)" in t
-    chk.ob(rule, "the Gregorian result keeps hour/minute/second/microsecond of the parsed params", ok, "",
+    import re as _re
+    m_ = _re.search(r"(\w+), (\w+), (\w+) = self\.calendar_converter\.to_gregorian\(", t)
+    ok_unpack = bool(m_)
+    m2 = _re.search(r"(\w+) = params\.copy\(\) \1\.update\(dict\(year=(\w+), month=(\w+), day=(\w+)\)\) return datetime\(\*\*\1\)", t)
+    ok = bool(m2) and bool(m_) and (m2.group(2), m2.group(3), m2.group(4)) == (m_.group(1), m_.group(2), m_.group(3))
+    chk.ob(rule, "the Gregorian result keeps hour/minute/second/microsecond of the parsed params", bool(m2), "",
            key={"function": f.key, "construct": "time carried over"}, file=f.file, function=f.qual, line=f.node.lineno)
-    ok = "year, month, day = self.calendar_converter.to_gregorian(" in t
-    chk.ob(rule, "the converter's result is unpacked as (year, month, day)", ok, "", key={"function": f.key, "construct": "unpack order"},
-           file=f.file, function=f.qual, line=f.node.lineno)
+    chk.ob(rule, "the converter's result is unpacked as (year, month, day) and stored under the same names", ok and ok_unpack, "",
+           key={"function": f.key, "construct": "unpack order"}, file=f.file, function=f.qual, line=f.node.lineno)
     h = ix.cls("dateparser.calendars.hijri_parser:hijri")
     tg = h.methods.get("to_gregorian")
     t = " ".join(ast.unparse(tg.node).split()) if tg else ""
-    ok = "Hijri(year=year, month=month, day=day, validate=False).to_gregorian()" in t and "return g.datetuple()" in t
+    ok = "Hijri(year=year, month=month, day=day, validate=False).to_gregorian()" in t and _re.search(r"(\w+) = Hijri\(.*\)\.to_gregorian\(\) return \1\.datetuple\(\)", t) is not None
     chk.ob(rule, "hijri.to_gregorian forwards year/month/day to Hijri(...) and returns its date tuple", ok, "",
            key={"function": "hijri.to_gregorian", "construct": "wrapper"}, file=h.module.rel, function="hijri.to_gregorian", line=None)
     J = ix.cls(JP)
@@ -221,7 +287,7 @@ def r3(ctx, chk):
     # month names -> index through the ordered table; weekday tokens accepted
     g = ix.func(NG + "._get_date_obj")
     t = " ".join(ast.unparse(g.node).split())
-    ok = "month = list(self._months.keys()).index(token) + 1" in t and "directive == '%B' and self._months and (token in self._months)" in t
+    ok = _re.search(r"(\w+) = list\(self\._months\.keys\(\)\)\.index\(token\) \+ 1", t) is not None and "directive == '%B' and self._months and (token in self._months)" in t
     chk.ob(rule, "a month name maps to its position in the month table + 1", ok, "", key={"function": g.key, "construct": "month index"},
            file=g.file, function=g.qual, line=g.node.lineno)
     # parse applies to_latin first and then the generic parser
